@@ -62,3 +62,55 @@ __CPROVER_ensures(!self->_options.g_pattern_empty ==> (g_vformats == 1 && g_clea
     trusted=['_set_arg_val<A> stores into slot _order_index[A] (two-line template function, fmt internals)', 'TimestampFormatter::format_timestamp (units TF.*, SFT.*)', 'fmt vformat_to substitutes slot k for the k-th {} of the generated format string (PF.pattern stand-in fixes that string and the slot order)'],
     min_obligations=30)
 UNITS = [fmt]
+
+# ------------------------------------------------------------------------------------------ PatternFormatterOptions::operator== (decides whether two loggers share one formatter)
+OH = 'quill/core/PatternFormatterOptions.h'
+PFO_PRELUDE = r'''
+typedef uint8_t Timezone; enum { TZ_LocalTime, TZ_GmtTime };
+/* strings by content id */
+typedef struct PFO { size_t format_pattern; size_t timestamp_pattern; Timezone timestamp_timezone; bool add_metadata_to_multi_line_logs; } PFO;
+#define B(x) ((x) ? 1 : 0)
+'''
+pfo_equals = dict(
+    name='PFO.equals', primary='C12', props={'C12', 'C16'}, kind='L',
+    desc='PatternFormatterOptions::operator==: two option sets are equal exactly when pattern, timestamp pattern, time zone and the multi-line flag all agree (loggers with equal options share one PatternFormatter object)',
+    structs=[], prelude=PFO_PRELUDE, enforce='PFO_equals', replace=[],
+    funcs=[dict(src=dict(header=OH, cls='PatternFormatterOptions', name='operator=='), src_params=['other'], cfun='PFO_equals', sig='bool PFO_equals(PFO* self, PFO const* other)', cls_c='PFO',
+                member_fields=['format_pattern', 'timestamp_pattern', 'timestamp_timezone', 'add_metadata_to_multi_line_logs'],
+                pre_rules=[(r'\bother\.', 'other->')], rules=[(r'self->add_metadata_to_multi_line_logs == other->add_metadata_to_multi_line_logs', 'B(self->add_metadata_to_multi_line_logs) == B(other->add_metadata_to_multi_line_logs)', '?')],
+                contract=r'''
+__CPROVER_requires(__CPROVER_is_fresh(self, sizeof(*self)) && __CPROVER_is_fresh(other, sizeof(*other)))
+__CPROVER_assigns()
+__CPROVER_ensures(RET ==> (self->format_pattern == other->format_pattern && self->timestamp_pattern == other->timestamp_pattern && self->timestamp_timezone == other->timestamp_timezone && B(self->add_metadata_to_multi_line_logs) == B(other->add_metadata_to_multi_line_logs))) /*@ C12,C16 "a formatter is shared only between loggers whose pattern, timestamp pattern, time zone and multi-line setting are all the same: a statement is never rendered with another logger's pattern" */
+__CPROVER_ensures((self->format_pattern == other->format_pattern && self->timestamp_pattern == other->timestamp_pattern && self->timestamp_timezone == other->timestamp_timezone && B(self->add_metadata_to_multi_line_logs) == B(other->add_metadata_to_multi_line_logs)) ==> RET)
+''')],
+    harness='  PFO* a; PFO* b; PFO_equals(a, b);', dropped=['std::string comparison as equality of content ids', 'bool fields normalised to 0/1 (a symbolic _Bool may hold any byte in CBMC)'], trusted=[], min_obligations=4)
+UNITS.append(pfo_equals)
+
+# ------------------------------------------------------------------------------------------ formatter look-up / creation in _dispatch_transit_event_to_sinks
+BWH = 'quill/backend/BackendWorker.h'
+FI_PRELUDE = r'''
+typedef struct PFm { size_t g_options; } PFm;                   /* a PatternFormatter: the options (content id) it was built from */
+typedef struct LB { PFm* pattern_formatter; size_t pattern_formatter_options; } LB;
+typedef struct TE { LB* logger_base; } TE;
+typedef struct BW { int dummy; } BW;
+static inline size_t PF_get_options(PFm* f) { return f->g_options; }
+PFm g_new_pf; size_t g_creates;
+static inline PFm* PF_make_shared(size_t options) { g_creates++; g_new_pf.g_options = options; return &g_new_pf; }
+'''
+fi_lambda = dict(
+    name='BW.formatter_share', primary='C12', props={'C12', 'C16'}, kind='S',
+    desc='the look-up lambda of _dispatch_transit_event_to_sinks: a logger without a formatter adopts the formatter of another logger only if that formatter was built from options equal to its own',
+    structs=[], prelude=FI_PRELUDE, enforce='BW_share_pred', replace=[],
+    funcs=[dict(src=dict(header=BWH, cls='BackendWorker', name='_dispatch_transit_event_to_sinks', lambda_after=r'_logger_manager\.for_each_logger\(\s*\[&transit_event\]\(LoggerBase\*\s*logger\)'),
+                cfun='BW_share_pred', sig='bool BW_share_pred(TE* transit_event_p, LB* logger)', member_fields=[], methods={'get_options': 'PF_get_options'},
+                pre_rules=[(r'\btransit_event\.', 'transit_event_p->')],
+                contract=r'''
+__CPROVER_requires(__CPROVER_is_fresh(transit_event_p, sizeof(TE)) && __CPROVER_is_fresh(transit_event_p->logger_base, sizeof(LB)) && __CPROVER_is_fresh(logger, sizeof(LB)) && transit_event_p->logger_base->pattern_formatter == NULL)
+__CPROVER_requires(logger->pattern_formatter == NULL || __CPROVER_is_fresh(logger->pattern_formatter, sizeof(PFm)))
+__CPROVER_assigns(transit_event_p->logger_base->pattern_formatter)
+__CPROVER_ensures(RET ==> (transit_event_p->logger_base->pattern_formatter == logger->pattern_formatter && logger->pattern_formatter != NULL && logger->pattern_formatter->g_options == transit_event_p->logger_base->pattern_formatter_options)) /*@ C12,C16 "a formatter adopted from another logger was built from options equal to this logger's own (unit PFO.equals says what equal means)" */
+__CPROVER_ensures(!RET ==> transit_event_p->logger_base->pattern_formatter == NULL) /*@ C12 "no formatter is adopted from a logger with different options" */
+''')],
+    harness='  TE* te; LB* l; BW_share_pred(te, l);', dropped=['shared_ptr ownership', 'options compared by content id (operator==: unit PFO.equals)'], trusted=[], min_obligations=6)
+UNITS.append(fi_lambda)
